@@ -34,7 +34,33 @@ impl<T> SendBuffer<T> {
     /// frame is sent, the previous frame will be overwritten.
     pub fn write(&self, frame: T) {
         self.tx_waker.wake_by(Signals::TRANSPORT);
+        #[cfg(gmquic_verif)]
+        verif::between_write_steps();
         *self.item.lock().unwrap() = Some(frame);
+    }
+}
+
+/// Verification hook, compiled only with `--cfg gmquic_verif`: lets a single-threaded harness run
+/// code between the two separately locked steps of [`SendBuffer::write`] (a schedule that needs a
+/// second thread otherwise).
+#[cfg(gmquic_verif)]
+pub mod verif {
+    use std::cell::RefCell;
+
+    thread_local! {
+        static BETWEEN: RefCell<Option<Box<dyn FnMut()>>> = const { RefCell::new(None) };
+    }
+
+    /// Install the closure that the next `SendBuffer::write` on this thread runs between its two steps.
+    pub fn set_between_write_steps(f: Option<Box<dyn FnMut()>>) {
+        BETWEEN.with(|b| *b.borrow_mut() = f);
+    }
+
+    pub(super) fn between_write_steps() {
+        let f = BETWEEN.with(|b| b.borrow_mut().take());
+        if let Some(mut f) = f {
+            f();
+        }
     }
 }
 
